@@ -12,7 +12,7 @@ from checks.sibcomp import WB, API, request, split_reply, vbits
 from vlib import paths
 from vlib.proto import hexs
 
-LEAN_TARGETS = ["LyModel.Props.C04", "LyModel.Props.C04Rb", "LyModel.Props.C04Mk"]
+LEAN_TARGETS = ["LyModel.Props.C04", "LyModel.Props.C04Rb", "LyModel.Props.C04Mk", "LyModel.Props.C04Dup"]
 AUDIT = "Audit/C04.lean"
 GENERATED = ["Consts"]
 ASSUMPTIONS = [
